@@ -19,8 +19,9 @@ class Unsupported(Exception):
 
 
 class Match:
-    def __init__(self, string, pos, end, groups, groupdict):
+    def __init__(self, string, pos, end, groups, groupdict, ngroups=None):
         self.string = string
+        self._ngroups = ngroups
         self._span = (pos, end)
         self._groups = groups          # index -> (start, end) | None
         self._groupdict = groupdict    # name -> index
@@ -54,7 +55,7 @@ class Match:
         return one(gs[0]) if len(gs) == 1 else tuple(one(g) for g in gs)
 
     def groups(self, default=None):
-        n = max(list(self._groups) + list(self._groupdict.values()) + [0])
+        n = self._ngroups if self._ngroups is not None else max(list(self._groups) + list(self._groupdict.values()) + [0])
         return tuple(self.group(i) if self.group(i) is not None else default for i in range(1, n + 1))
 
     def groupdict(self, default=None):
@@ -225,7 +226,7 @@ class Pattern:
                     lambda p, g: (p, g) if ((not full or p == len(s)) and (not nonempty or p > pos)) else None)
         if r is None:
             return None
-        return Match(s, pos, r[0], r[1], self.groupdict)
+        return Match(s, pos, r[0], r[1], self.groupdict, self.ngroups)
 
     def match(self, s, pos=0, *a):
         return self._at(s, pos)
@@ -256,6 +257,33 @@ class Pattern:
             out.append(m)
             must_advance = m.end() == m.start()
             start = m.end()
+        return out
+
+    def findall(self, s, pos=0, *a):
+        """As re: the list of group 0 (no group), the one group, or tuples of groups, of every match."""
+        out = []
+        for m in self.finditer(s, pos):
+            if self.ngroups == 0:
+                out.append(m.group(0))
+            elif self.ngroups == 1:
+                out.append(m.group(1) or '')
+            else:
+                out.append(tuple(g or '' for g in m.groups()))
+        return out
+
+    def split(self, s, maxsplit=0):
+        if self.ngroups:
+            raise Unsupported('split with groups')
+        out, last, n = [], 0, 0
+        for m in self.finditer(s):
+            if m.end() == m.start() and (m.start() == 0 or m.start() == len(s)) and False:
+                continue
+            out.append(s[last:m.start()])
+            last = m.end()
+            n += 1
+            if maxsplit and n >= maxsplit:
+                break
+        out.append(s[last:])
         return out
 
     def sub(self, repl, s, count=0):
